@@ -35,6 +35,20 @@ PROPERTIES = {
     "C10": dict(
         contracts=[
             ("contracts.tsl", "TiledStride_canonicalize"),
+            ("contracts.tsl", "TiledStride_from_stride"),
+            ("contracts.tsl", "TSL_from_strides"),
+            ("contracts.tsl", "TSL_canonicalize"),
+            ("contracts.tsl", "TSL_structure_queries"),
+            ("contracts.tsl", "Stride_all_values"),
+            ("contracts.tsl", "TSL_all_values"),
+            ("contracts.tsl", "TSL_largest_common_contiguous_block"),
+            ("contracts.tsl", "TSLAttr_get_affine_map"),
+            ("contracts.tsl", "TSLAttr_get_bound_ops"),
+            ("contracts.tsl", "TSLAttr_get_step_ops"),
+        ],
+        bounded=[
+            dict(module="contracts.bounded_tsl", fn="overlap_dense", function="TiledStridedLayout.self_overlaps / is_dense (np.unique)"),
+            dict(module="contracts.bounded_tsl", fn="print_parse", function="TSLParser.parse o TiledStridedLayout.__str__ (xDSL text parser)"),
         ],
         trusted_base=["paper lemma: coalesces(orig,new) => same index->address function (contracts/specs.py)"],
     ),
